@@ -23,10 +23,10 @@ def run(ctx):
         open(cases, "w").write(ctx.replay["case_record"]["line"] + "\n")
     else:
         cfg = "ErrWrap_quick.cfg" if ctx.tier == "quick" else "ErrWrap_thorough.cfg"
-        ctx.tlc("sem", "ErrWrap", cfg, cases_path=cases, timeout_s=600,
+        ctx.tlc("sem", "ErrWrap", cfg, cases_path=cases, timeout_s=1800,
                 workers=min(8, int(os.environ.get("VERIF_TLC_WORKERS") or 8)))
     h = ctx.build_harness("semh")
-    res = ctx.run_harness(h, ["errwrap"], cases, timeout_s=1800)
+    res = ctx.run_harness(h, ["errwrap"], cases, timeout_s=5000)
     ctx.tally(res, cases_path=cases)
     ctx.programs = int(ctx.extra.get("programs", 0)) + int(ctx.extra.get("go_expansion_programs", 0))
     ctx.disagreements_checked = int(ctx.extra.get("compared_with_model", 0))
